@@ -55,7 +55,7 @@ def model(tier, rep, have):
 
     def one(kind):
         return kind, vlib.tlc_mc("Set.tla", "Set_%s.cfg" % kind, "set_%s_%s" % (kind, tier), workers=6 if kind != "fmset" else 2,
-                                 constants=consts, heap="6g")
+                                 constants=consts, heap="3g")
     with ThreadPoolExecutor(max_workers=3) as ex:
         res = dict(ex.map(one, KINDS))
     nsets = sum(comb(T["univ"], k) for k in range(T["cap"] + 1))
@@ -159,7 +159,7 @@ def execute(tier, scripts, bins, kinds, impl="etl"):
 def _side(tier, scripts, bins, kinds, impl):
     traces, st = execute(tier, scripts, bins, kinds, impl)
     merged = concat(traces, os.path.join(vlib.workdir("traces"), "set_%s_merged_%s" % (impl, tier)), 8)
-    tv = vlib.tv_parallel("SetTrace.tla", "SetTrace.cfg", merged, "set_tv_%s_%s" % (impl, tier), par=8)
+    tv = vlib.tv_parallel("SetTrace.tla", "SetTrace.cfg", merged, "set_tv_%s_%s" % (impl, tier), par=8, heap="2g")
     return tv, st
 
 
